@@ -193,8 +193,9 @@ class MutualInfoClimateNetwork(ClimateNetwork):
                 print("Loading mutual information matrix from "
                       f"{self.mi_file}...")
 
-            with open(self.mi_file, 'r', encoding="utf-8") as f:
-                mi = np.load(f)
+            #  (binary file written by ndarray.dump below, i.e. a pickle)
+            with open(self.mi_file, 'rb') as f:
+                mi = np.load(f, allow_pickle=True)
                 #  Check if the dimensions of mutual_information correspond to
                 #  the grid.
                 if mi.shape != (self.N, self.N):
@@ -210,7 +211,7 @@ class MutualInfoClimateNetwork(ClimateNetwork):
 
             mi = self._cython_calculate_mutual_information(anomaly)
             if dump:
-                with open(self.mi_file, 'w', encoding="utf-8") as f:
+                with open(self.mi_file, 'wb') as f:
                     if self.silence_level <= 1:
                         print("Storing in", self.mi_file)
                     mi.dump(f)
